@@ -1,9 +1,9 @@
 (* The whole tool as one function of the view: analyzer, then generator and file layout. *)
 From Coq Require Import List Ascii String Bool Arith ZArith.
-From SV Require Import Lib.Str Model.Types Model.Api Model.Back Model.Layout Model.View Model.Front.
+From SV Require Import Lib.Str Model.Types Model.Api Model.Back Model.Layout Model.View Model.Front Model.Json.
 Import ListNotations.
 
-Record output := { out_api : api; out_flat : list (list str); out_log : list logrec; out_amb : bool;
+Record output := { out_api : api; out_flatd : flat; out_log : list logrec; out_amb : bool;
                    out_data : list entry; out_files : fsys; out_gst : gst }.
 
 (* run: the API object (what the JSON file is written from), the log, and the stub files written into an initially given tree *)
@@ -11,9 +11,13 @@ Definition run (v : view) (nc : bool) (fs0 : fsys) : res output :=
   do o <- front v;
   do b <- back_run (o_api o) nc fs0;
   let '(data, s, fs) := b in
-  Ok {| out_api := o_api o; out_flat := o_flat o; out_log := o_log o; out_amb := o_amb o; out_data := data; out_files := fs;
+  Ok {| out_api := o_api o; out_flatd := o_flatd o; out_log := o_log o; out_amb := o_amb o; out_data := data; out_files := fs;
         out_gst := s |}.
 
 (* everything a run leaves behind, the log excepted *)
-Definition artefacts (r : res output) : res (api * list (list str) * list entry * fsys) :=
-  match r with Ok o => Ok (out_api o, out_flat o, out_data o, out_files o) | Err e => Err e end.
+Definition artefacts (r : res output) : res (api * flat * list entry * fsys) :=
+  match r with Ok o => Ok (out_api o, out_flatd o, out_data o, out_files o) | Err e => Err e end.
+
+(* the JSON value written to <package>__api.json (distribution and version come from the installed package metadata) *)
+Definition api_file (distribution version : str) (o : output) : jv :=
+  api_json distribution version {| o_api := out_api o; o_flatd := out_flatd o; o_log := out_log o; o_amb := out_amb o |}.
